@@ -25,7 +25,7 @@ Ports   == {"", ":", ":80", ":443", ":8080"}
 Segs    == {"a", "A", "%61", "~", "%7E", "%7e", "a%2Fb", "a%2fb", "%E9", "%e9", "RAWE9", "%C3%A9", "+", "%2B", "%20", "b"}
 Paths   == {<<>>, <<"">>} \cup {<<s>> : s \in Segs} \cup {<<"a", s>> : s \in {"b", "B", ".", "..", ""}}
            \cup {<<".", "a">>, <<"..", "a">>, <<"a", ".", "b">>, <<"a", "..", "b">>, <<"a", "b", "..">>, <<"x", "..", "a">>, <<"a", "", "b">>}
-Queries == {"NONE", "q=a", "q=A", "q=%61", "q=~", "q=%7e", "q=%7E", "q=%E9", "q=%e9", "q=RAWE9", "q=%C3%A9", "q=a%2Fb", "q=a%2fb", "q=a&r=b", "r=b&q=a", "q=+", "q=%20"}
+Queries == {"NONE", "q=%%341", "q=%4%31", "q=a", "q=A", "q=%61", "q=~", "q=%7e", "q=%7E", "q=%E9", "q=%e9", "q=RAWE9", "q=%C3%A9", "q=a%2Fb", "q=a%2fb", "q=a&r=b", "r=b&q=a", "q=+", "q=%20"}
 Frags   == {"", "#frag"}
 Users   == {"", "user@"}
 
@@ -37,7 +37,8 @@ Bases ==
     U("https", "example.com", "", <<"a", "b">>, "NONE", "", ""),
     U("http", "[::1]", ":8080", <<"a">>, "NONE", "", ""),
     U("http", "example.com", "", <<"~">>, "q=~", "", ""),
-    U("http", "example.com", "", <<"%E9">>, "q=%E9", "", "") }
+    U("http", "example.com", "", <<"%E9">>, "q=%E9", "", ""),
+    U("http", "example.com", "", <<"a">>, "q=%%341", "", "") }
   \cup (IF Thorough THEN
     { U("http", "example.com", ":8080", <<>>, "NONE", "", ""),
       U("http", "127.0.0.1", "", <<"a%2Fb">>, "q=a%2Fb", "", ""),
@@ -91,7 +92,11 @@ KHost(h) == IF "strip_brackets" \in Defects
 \* with the brackets stripped, host and port are simply concatenated
 KHostPort(a) == LET p == PortNF(a.scheme, a.port) IN
                 IF "strip_brackets" \in Defects /\ a.host = "[::1]" /\ p = ":8080" THEN <<"::1:8080", "">> ELSE <<KHost(a.host), p>>
-KPct(s) == IF "latin1_unreserved" \in Defects /\ s \in {"q=%E9", "q=%e9"} THEN "q=RAWE9" ELSE PctNF(s)
+\* a "%" that starts no valid escape (possible in a query) must stop all rewriting: the pinned normaliser turned
+\* both "%%341" and "%4%31" into "%41"
+KPct(s) == IF "latin1_unreserved" \in Defects /\ s \in {"q=%E9", "q=%e9"} THEN "q=RAWE9"
+           ELSE IF "rewrite_malformed" \in Defects /\ s \in {"q=%%341", "q=%4%31"} THEN "q=%41"
+           ELSE PctNF(s)
 KeyOf(a) == [scheme |-> Lower(a.scheme), hostport |-> KHostPort(a), path |-> PathNF(a.path), query |-> KPct(a.query)]
 
 (***************************************************************************)
